@@ -71,6 +71,14 @@ class IntervalRegressor(BaseEstimator, RegressorMixin):
         * `dim_`: dimension of the output
         * `mean_`: average targets
         """
+        # rows are drawn by position: dataframes and series are converted
+        # into arrays, indexing them would look labels up
+        if hasattr(X, "iloc"):
+            X = X.values
+        if hasattr(y, "iloc"):
+            y = y.values
+        if hasattr(sample_weight, "iloc"):
+            sample_weight = sample_weight.values
         self.estimators_ = []
         estimators = [clone(self.estimator) for i in range(self.n_estimators)]
 
